@@ -10,16 +10,34 @@ HARNESS = "c08_reasm"
 HARNESS_FLAGS = ["-fno-access-control"]          # the harness prints IPv4Reassembler::streams_.size()
 CASE_START = ("case",)
 MANIFEST = dict(
-    text="Lean 4 theorems: a code-shaped executable model of IPv4Stream/IPv4Reassembler::process refines, for all "
-         "capture histories (any partitions at multiples of 8, any arrival order, duplicates, interleaving of datagrams "
-         "with different RFC 791 keys, unfragmented and non-IP packets, remove_stream/clear_streams), a reference "
-         "reassembler that knows which datagram every fragment belongs to; tied to the code by differential "
-         "correspondence under ASan/UBSan on wire packets built by an independent RFC 791 encoder, and by the Lean "
-         "reference itself run as an oracle on the implementation's output.",
+    text="Lean 4 theorems about a code-shaped executable model of IPv4Stream/IPv4Reassembler::process. (1) Inside the "
+         "property's hypothesis (any partitions at multiples of 8, any arrival order, duplicates, interleaving of datagrams "
+         "with different RFC 791 keys, unfragmented and non-IP packets, remove_stream/clear_streams) the model refines a "
+         "reference reassembler that knows which datagram every fragment belongs to. (2) For ARBITRARY sessions "
+         "(overlapping fragments, several lengths at one offset, conflicting last fragments, offsets + lengths beyond "
+         "65535, any packets whatsoever) the model refines a set-based policy reference (model_refines_policy); every call "
+         "goes one of five ways (process_all_cases); REASSEMBLED only from an exact cover of [0,total) by arrived fragments "
+         "of that key ending in a fragment without more-fragments, header + total <= 65535 "
+         "(never_from_incomplete_all, reassembled_bytes); the only exception is the upper parser's malformed_packet on "
+         "an exact cover; the corrupt path erases the stream and leaves the first header without payload; no fault; "
+         "independence of keys for arbitrary packets; at most one open stream per distinct key, and inside the hypothesis "
+         "exactly the datagrams with a non-empty incomplete episode (live_streams_exact), with the late-duplicate leak "
+         "stated and proved (late_duplicate_leaks). (3) End to end with the wire families (Props/C08Wire.lean): the parser "
+         "parameter instantiated by the proved model of Internals::pdu_from_flag (generated next-protocol table + "
+         "Wire.parseChain): it never faults and throws only malformed_packet, the IP constructor of an unfragmented "
+         "datagram dispatches with the same function, hence the reassembled packet carries the original datagram's "
+         "header fields and, above IP, the very layers parsing the original datagram yields (reassembly_end_to_end). "
+         "Tied to the code by differential correspondence under ASan/UBSan on wire packets built by an independent RFC "
+         "791 encoder, and by three Lean oracles run on the implementation's own output: the datagram-aware reference "
+         "(inside the hypothesis), the policy reference (every call of every history) and history-level safety clauses "
+         "(exact cover by arrived fragments, stream count from the implementation's own reports).",
     note="Trusted: Lean kernel + standard axioms; hand-written model tied by correspondence (harness/c08_reasm.cpp); "
-         "the upper-layer parser is a parameter of the theorems and is instantiated at run time for UDP, option-less TCP "
-         "and class-less protocols; generator coverage bounds what the tie sees.",
-    technique="Lean 4 proof (refinement of a reference reassembler over arbitrary histories) + model/impl correspondence",
+         "the upper-layer parser the driver runs is the wire families' model of pdu_from_flag (tied by the C01-C04 checks); "
+         "payloads generated for the correspondence are UDP, option-less TCP and class-less protocols; generator coverage "
+         "bounds what the tie sees.",
+    technique="Lean 4 proof (refinement of a datagram-aware reference inside the hypothesis and of a policy reference for "
+              "arbitrary sessions; invariants over all histories; composition with the wire parser model) + model/impl "
+              "correspondence + spec oracles on the implementation's output",
     design="DESIGN.md §6 C08")
 MANIFEST["note"] += (" Constants and limits of the C++ source that the model restates (translator/gen_limits.py -> Gen/Limits.lean: "
                      "compiled probe + preprocessed function bodies at named anchors) are tied to the model's numerals by the "
@@ -371,7 +389,7 @@ def kf_witness_case():
 
 
 def regression_cases():
-    """one deterministic case per fixed defect (KF-C08-2..5)"""
+    """one deterministic case per fixed defect (KF-C08-2..6)"""
     p = bytes(range(1, 17))
     q = bytes(range(101, 117))
     out = []
@@ -385,6 +403,11 @@ def regression_cases():
     d = Dg("d0", 7, A, B, 6, 0, False, 0, p, [8, 8])                 # 16 bytes of "TCP": allocate_pdu throws
     out.append(["case", d.op(), d.frag((0, 8), 64, False), d.frag((8, 8), 64, False), d.frag((8, 8), 64, False),
                 d.frag((0, 8), 64, False)])
+    # KF-C08-6: header + total = 65536 (a last fragment of 4 bytes at offset 65512): dropped as corrupt, not reassembled
+    big = bytes((i * 7 + 3) % 256 for i in range(65516))
+    d = Dg("d0", 9, A, B, 253, 0, False, 0, big, [32768, 32744, 4])
+    out.append(["case", d.op(), d.frag((0, 32768), 64, False), d.frag((65512, 4), 64, False), d.frag((32768, 32744), 64, False),
+                d.frag((65512, 4), 64, False)])
     return out
 
 
@@ -522,12 +545,19 @@ def run(chk):
         "std::map order is not observable through IPv4Reassembler's interface; streams_ is modelled as an association list",
         "IP options are modelled as an opaque count that is copied with the header (NOOP options on the wire)",
         "key re-use is only specified after the earlier datagram was completed (no timers in the API)",
+        "outside the property's hypothesis (overlapping / conflicting fragments) the expected behaviour is the documented "
+        "policy of the class (first fragment at an offset wins, RFC 791 TDL from the most recent last fragment, exact cover "
+        "or drop): TinsModel/Reassembly/Policy.lean; the property itself only demands the safety clauses",
+        "no user-registered PDU allocator for IP protocols (Internals::allocate<IP> is not consulted by allocate_pdu anyway)",
     ]
     chk.trusted += ["correspondence harness harness/c08_reasm.cpp (own RFC 791 encoder) + generators in checks/C08.py",
                     "g++ 12 / ASan+UBSan build of the repo working tree; harness built with -fno-access-control to read streams_.size()"]
     chk.extra["modelled_not_proved"] = [
-        "the `corrupt` path of process() (overlapping fragments whose byte count equals the total): correspondence only",
-        "upper-layer parsing (pdu_from_flag) is a parameter of the theorems; UDP/TCP/raw instance checked by correspondence",
+        "the bytes the reassembled upper layer re-serialises to are compared by correspondence for UDP / option-less TCP / "
+        "class-less protocols only (the theorems speak about the layers pdu_from_flag builds, Props/C08Wire.lean; "
+        "re-serialisation of parsed layers is C03)",
+        "IP options are an opaque word count in the reassembly model (copied with the first header); their contents in the "
+        "reassembled packet are compared by correspondence (NOOP options)",
     ]
     corr.finalize_cov(chk)
 
